@@ -57,6 +57,7 @@ def run(ctx):
                expected="data | 60 | bstr header | zeros with len(result) % eb_size == 0 and a header that declares exactly the zeros that follow",
                found=f"len(data)={wit[0]}, eb_size={wit[1]}: {wit[2]}  (proof rules: {str(err)[:120]})")
     close_merge_rules(ctx, ev0)
+    producers_rules(ctx)
 
 
 def slot_rules(ctx, ev):
@@ -72,6 +73,8 @@ def slot_rules(ctx, ev):
     pad_calls = [e.args[0] for e in all_effects(o.effects) if isinstance(e, App) and e.op == "eff:call"
                  and isinstance(e.args[0], App) and e.args[0].op == "call" and isinstance(e.args[0].args[0], Ref)
                  and e.args[0].args[0].obj.name == "add_padding"]
+    if len(pad_calls) == 0:
+        generic.absent(ctx, "slot padding", fi, "add_padding(<slot bytes>) before the slot is appended", "slots after the first are not aligned to the erase block")
     if len(pad_calls) != 1:
         raise AnalysisError(f"{fq}: add_padding call not recognised")
     slot = pad_calls[0].args[-1]
@@ -501,6 +504,58 @@ def close_merge_rules(ctx, ev):
         c = called.get(name)
         R.check("C10-D3c sub-commands share one partition", c is not None and c.args[1] == cache, f"{name}(cache, …)", mod=main.module,
                 node=main.node, function=ctx.fq(main), expected="the partition object created in main", found=repr(c)[:160], key_extra=name)
+
+
+def producers_rules(ctx):
+    """The three producers hand exactly the supplied pairs to the partition: from_payloads adds (uri, whole file) per "uri,path" item,
+    merge_cache_files merges every input file, main closes the same partition into --output-file."""
+    R = ctx.report
+    repo = ctx.repo
+    ev = Evaluator(repo, inline_depth=0)
+    R.rule("C10-D3d producers", 4, "from_payloads: add_cache_slot(uri, <whole binary file>) per item; merge: every input; main: close_and_save_cache(output_file)")
+    fp = repo.func(MOD, "CacheFromPayloads.fill_cache_from_payloads")
+    outs = [o for o in ev.outcomes(fp) if o.kind == "return"]
+    outs = generic.sole_outcome(ctx, outs, f"{ctx.fq(fp)}: expected one outcome")
+    INP = P("input")
+    item = App("elem", (INP,))
+    split = App("meth:split", (item, Const(",")))
+    adds = [(e.args[0], g) for e, g in _with_guards(outs[0].effects) if isinstance(e, App) and e.op == "eff:call" and isinstance(e.args[0], App)
+            and e.args[0].op == "meth:add_cache_slot"]
+    if not adds:
+        generic.absent(ctx, "payloads added", fp, "cache.add_cache_slot(uri, data) for every input item", "no payload reaches the cache")
+    want = App("meth:add_cache_slot", (P("cache"), App("unpack", (split, Const(0), Const(2))), App("filebytes", (App("unpack", (split, Const(1), Const(2))),))))
+    loops = [e for e in outs[0].effects if isinstance(e, App) and e.op == "eff:loop" and e.args[0] == INP]
+    R.check("C10-D3d producers", len(adds) == 1 and adds[0][0] == want and not adds[0][1] and len(loops) == 1, "from_payloads: one slot per \"uri,path\" item",
+            mod=fp.module, node=fp.node, function=ctx.fq(fp), expected="for item in input: uri, path = item.split(','); add_cache_slot(uri, open(path,'rb').read())",
+            found=f"{[repr(a)[:200] for a, g in adds]} guards {[len(g) for a, g in adds]}")
+    rej = [o for o in ev.outcomes(fp) if o.kind == "raise"]
+    cond_ok = any(any(c == App("<", (App("len", (split,)), Const(2))) for c in o.conds) for o in rej)
+    R.check("C10-D3d producers", cond_ok, "from_payloads: an item without a comma is rejected, an item with one is accepted", mod=fp.module, node=fp.node,
+            function=ctx.fq(fp), expected="raise exactly when len(item.split(',')) < 2", found=f"{[[repr(c)[:60] for c in o.conds[-1:]] for o in rej]}")
+    mf = repo.func(MOD, "CacheMerge.merge_cache_files")
+    mo = [o for o in ev.outcomes(mf) if o.kind == "return"]
+    mo = generic.sole_outcome(ctx, mo, f"{ctx.fq(mf)}: expected one outcome")
+    mcalls = [(e.args[0], g) for e, g in _with_guards(mo[0].effects) if isinstance(e, App) and e.op == "eff:call" and isinstance(e.args[0], App)
+              and e.args[0].op == "meth:merge_single_cache_file"]
+    if not mcalls:
+        generic.absent(ctx, "input caches merged", mf, "cache.merge_single_cache_file(file) for every input", "no input cache reaches the partition")
+    R.check("C10-D3d producers", len(mcalls) == 1 and mcalls[0][0] == App("meth:merge_single_cache_file", (P("cache"), item)) and not mcalls[0][1],
+            "merge: every input file is merged into the same partition", mod=mf.module, node=mf.node, function=ctx.fq(mf),
+            expected="for f in input: cache.merge_single_cache_file(f)", found=f"{[repr(a)[:160] for a, g in mcalls]}")
+    main = repo.func(MOD, "main")
+    mo = [o for o in ev.outcomes(main) if o.kind == "return"]
+    mo = generic.sole_outcome(ctx, mo, "cmd_cache_create.main: expected one normal outcome")
+    closes = [(e.args[0], g) for e, g in _with_guards(mo[0].effects) if isinstance(e, App) and e.op == "eff:call" and isinstance(e.args[0], App)
+              and (e.args[0].op == "meth:close_and_save_cache" or (e.args[0].op == "call" and isinstance(e.args[0].args[0], Ref)
+                                                                   and e.args[0].args[0].obj.name == "close_and_save_cache"))]
+    if not closes:
+        generic.absent(ctx, "partition written", main, "cache.close_and_save_cache(kwargs['output_file'])", "no cache file is written")
+    c0, g0 = closes[0]
+    news = [s_ for e in all_effects(mo[0].effects) for s_ in subterms(e) if isinstance(s_, App) and s_.op == "new" and isinstance(s_.args[0], Ref)
+            and s_.args[0].obj.name == "CachePartition"]
+    R.check("C10-D3d producers", len(closes) == 1 and not g0 and c0.args[-1] == App("idx", (P("kwargs"), Const("output_file"))) and bool(news) and news[0] in c0.args,
+            "main: the partition filled by the sub-command is closed into --output-file, unconditionally", mod=main.module, node=main.node,
+            function=ctx.fq(main), expected="cache.close_and_save_cache(kwargs['output_file']) after the sub-command", found=f"{repr(c0)[:200]} guards {len(g0)}")
 
 
 def _plus(t):
